@@ -7,6 +7,7 @@ import (
 	"encoding/base64"
 	"encoding/json"
 	"fmt"
+	"io"
 	"os"
 	"regexp"
 	"strconv"
@@ -51,6 +52,7 @@ type BodyCase struct {
 	Hashes [][]byte `json:"hashes"`
 	Cp     []byte   `json:"cp"`
 	Writer string   `json:"writer"` // harness | feedbastion
+	Chunk  int      `json:"chunk,omitempty"` // >0: the body is delivered to the parser in reads of at most this many bytes
 	Defect string   `json:"defect,omitempty"`
 	Raw    []byte   `json:"raw,omitempty"`
 }
@@ -77,6 +79,28 @@ func writeBody(old uint64, hashes [][]byte, cp []byte, writer string) []byte {
 	b.WriteByte('\n')
 	b.Write(cp)
 	return b.Bytes()
+}
+
+// chunkReader hands the body out in small pieces, as a network connection does.
+type chunkReader struct {
+	b []byte
+	n int
+}
+
+func (c *chunkReader) Read(p []byte) (int, error) {
+	if len(c.b) == 0 {
+		return 0, io.EOF
+	}
+	n := c.n
+	if n > len(p) {
+		n = len(p)
+	}
+	if n > len(c.b) {
+		n = len(c.b)
+	}
+	copy(p, c.b[:n])
+	c.b = c.b[n:]
+	return n, nil
 }
 
 var oldLineRE = regexp.MustCompile(`^old (0|[1-9][0-9]*)$`)
@@ -168,7 +192,11 @@ func runBodyCase(c *BodyCase, st *vlib.Stats) (bool, []string, error) {
 		st.Exclude("F5")
 		return false, []string{"excluded-F5"}, nil
 	}
-	gotOld, gotHashes, gotCp, err := parseBody(bytes.NewReader(body))
+	var rd io.Reader = bytes.NewReader(body)
+	if c.Chunk > 0 {
+		rd = &chunkReader{b: body, n: c.Chunk}
+	}
+	gotOld, gotHashes, gotCp, err := parseBody(rd)
 	switch c.Kind {
 	case "roundtrip":
 		nontrivial := len(c.Hashes) >= 1 && bytes.Contains(c.Cp, []byte("\n\n"))
@@ -229,6 +257,9 @@ func genOld(t *rapid.T) uint64 {
 
 func genHashes(t *rapid.T, minLen int) [][]byte {
 	n := rapid.IntRange(0, 64).Draw(t, "nhashes")
+	if vlib.Pct(t, 30, "nhashes_edge") {
+		n = rapid.SampledFrom([]int{0, 1, 2, 31, 32, 33, 62, 63, 64}).Draw(t, "nhashes_edge_val")
+	}
 	hs := make([][]byte, 0, n)
 	for i := 0; i < n; i++ {
 		var l int
@@ -344,6 +375,9 @@ func TestC11Body(t *testing.T) {
 		switch vlib.Uniform(rt, 10, "kind") {
 		case 0, 1, 2, 3:
 			c = &BodyCase{Kind: "roundtrip", Old: genOld(rt), Hashes: genHashes(rt, 1), Cp: genCpBytes(rt), Writer: rapid.SampledFrom([]string{"harness", "feedbastion"}).Draw(rt, "writer")}
+			if rapid.Bool().Draw(rt, "chunked") {
+				c.Chunk = rapid.SampledFrom([]int{1, 2, 7, 16, 64, 100, 1000, 4095, 4096, 4097}).Draw(rt, "chunk")
+			}
 		case 4, 5, 6:
 			c = genMalformed(rt)
 		default:
@@ -408,8 +442,12 @@ func runProofCase(c *ProofCase, st *vlib.Stats) (bool, []string, error) {
 		}
 		return false, []string{"unmarshal-rejects"}, nil
 	}
-	if got := q.Marshal(); got != *c.Text {
-		return true, []string{"unmarshal-marshal"}, fmt.Errorf("accepted proof text %q marshals back as %q", trunc([]byte(*c.Text)), trunc([]byte(got)))
+	// The property only promises write -> read. In the other direction an accepted text
+	// may be a non-canonical spelling (spare base64 bits), so only stability is required:
+	// what was read must survive another write -> read.
+	var q2 witness.Proof
+	if err := q2.Unmarshal([]byte(q.Marshal())); err != nil || !hashesEqual(q, q2) {
+		return true, []string{"unmarshal-marshal"}, fmt.Errorf("proof read from %q does not survive marshal+unmarshal (err %v)", trunc([]byte(*c.Text)), err)
 	}
 	return true, []string{"unmarshal-marshal"}, nil
 }
